@@ -7,8 +7,11 @@ import sys
 import time
 
 VERIF = os.path.dirname(os.path.dirname(os.path.abspath(__file__)))
-EVIDENCE = os.path.join(VERIF, 'evidence')
-REPLAYS = os.path.join(VERIF, 'replays')
+# VERIF_SCRATCH redirects evidence/replays (used only by tools/mutant_matrix.py
+# to run several seeded changes side by side; registered commands do not set it)
+_OUT = os.environ.get('VERIF_SCRATCH') or VERIF
+EVIDENCE = os.path.join(_OUT, 'evidence')
+REPLAYS = os.path.join(_OUT, 'replays')
 KNOWN = os.path.join(VERIF, 'known_findings.json')
 
 
